@@ -673,3 +673,68 @@ def r_makespan(ctx):
 
 RULES = [r_ind_def, r_same_horizon, r_makespan, r_cost_func, r_minmax, r_ind_name, r_ind_read, r_ind_constraint,
          lambda ctx: resource_constraints.r_union_exh(ctx, bases=("Indicator", "Objective"))]
+
+
+OWN_EXACT_EXEMPT = {
+    "ObjectiveMinimizeFlowtimeSingleResource": "the docs give no definition of its min / max encoding (DESIGN 10.5): not decided",
+}
+
+
+def r_own_exact(ctx, bases=("Indicator", "Objective", "Resource")):
+    """'no valid schedule is lost' / 'the reported value equals the definition': an indicator, an objective or a resource constrains
+    nothing by itself - everything its constructor asserts is a definition: the one equation `indicator variable == E` (E is
+    decided by R-IND-DEF), or the whole assertion list of a helper that defines an auxiliary variable (get_maximum / get_minimum /
+    the sorters, decided by R-MINMAX / R-SORT-NET).  Any other assertion narrows the schedules (`indicator >= 0`, a forced
+    selection flag ...) and is reported."""
+    proj = ctx.project
+    n = 0
+    HELPERS = ("get_maximum", "get_minimum", "sort_no_duplicates", "sort_duplicates")
+
+    def helper_list(it):
+        """it is (a concatenation of) the assertion list(s) returned by a helper call"""
+        if is_app(it, "+") and len(it) == 4:
+            return helper_list(it[2]) and helper_list(it[3])
+        if isinstance(it, tuple) and it and it[0] == "idx" and isinstance(it[1], tuple) and it[1] and it[1][0] == "call":
+            it = it[1]
+        return isinstance(it, tuple) and it and it[0] == "call" and it[1].split(".")[-1] in HELPERS
+
+    for base in bases:
+        for c in proj.subclasses(base, strict=False):
+            if c.name in bases:
+                continue
+            if c.name in OWN_EXACT_EXEMPT:
+                ctx.note(f"R-OWN-EXACT: {c.name} exempt: {OWN_EXACT_EXEMPT[c.name]}")
+                continue
+            runs = runs_of(ctx, Entry("init", cls=c.name, opaque=OPAQUE))
+            fails_closed(ctx, "R-OWN-EXACT", runs)
+            where = f"{c.name}.__init__"
+            bad = {}
+            for run in runs:
+                if run.rejected:
+                    continue
+                defs_per_owner = {}
+                for e in run.emissions:
+                    n += 1
+                    t = e.term
+                    if is_app(t, "==") and len(t) == 4 and not e.loops and not e.guards:
+                        var = run.heap.get((e.owner, "_indicator_variable"))
+                        var = var if isinstance(var, tuple) else None
+                        if var is not None and var in (t[2], t[3]):
+                            defs_per_owner[e.owner] = defs_per_owner.get(e.owner, 0) + 1
+                            if defs_per_owner[e.owner] > 1:
+                                bad.setdefault(("second defining equation", show(norm(t))[:160]), (describe_config(run), loc(e)))
+                            continue
+                    if e.loops and t == ("elem", e.loops[-1]) and not e.guards and helper_list(e.loops[-1][3]):
+                        continue
+                    bad.setdefault(("assertion beyond the definition", show(norm(t))[:160]), (describe_config(run), loc(e)))
+            for (kind, what), (cfgs, location) in sorted(bad.items()):
+                ctx.violation("R-OWN-EXACT", where, f"{kind}: {what[:80]}",
+                              f"on [{cfgs[:100]}] {c.name} asserts {what}: beyond the definition of its variable(s) this constrains the "
+                              f"schedules themselves - a schedule that every task, resource and constraint allows is excluded, and the "
+                              f"value reported is no longer just a measurement", location)
+            if not bad:
+                ctx.ok("R-OWN-EXACT", f"{where}: asserts definitions only")
+    ctx.floor("R-OWN-EXACT", "assertions of indicator / objective / resource constructors classified", n, 25 if "Indicator" in bases else 0)
+
+
+RULES.append(r_own_exact)
